@@ -442,6 +442,8 @@ type Tx struct {
 	Writes  map[uint32][]byte // pgno -> new content (page 1 is rewritten by the simulator to carry the new size)
 	NewSize uint32
 	Wal     bool // header versions of page 1 after the tx (switches the database to WAL mode)
+	// JournalSplit: the journal is synced after this many records and continues in a second segment (0: one segment)
+	JournalSplit int
 	// Spill: pages beyond both the old and the final size that the transaction allocated, that the
 	// page cache spilled to the file, and that were freed again before the commit
 	Spill map[uint32][]byte
@@ -641,45 +643,56 @@ func (p *Pager) RunRollbackTx(prev *Image, tx Tx, jm JournalMode, outcome Rollba
 			recs = append(recs, pg)
 		}
 	}
-	hdr := make([]byte, sectorSize)
-	copy(hdr, "\xd9\xd5\x05\xf9\x20\xa1\x63\xd7")
-	binary.BigEndian.PutUint32(hdr[8:], 0) // nRec, rewritten at sync
-	binary.BigEndian.PutUint32(hdr[12:], p.Nonce)
-	binary.BigEndian.PutUint32(hdr[16:], uint32(len(prev.Pages)))
-	binary.BigEndian.PutUint32(hdr[20:], uint32(sectorSize))
-	binary.BigEndian.PutUint32(hdr[24:], uint32(ps))
-	if err := db.WriteJournalAt(ctx, jf, hdr, 0, o); err != nil {
-		unlockAll()
-		return fmt.Errorf("journal header: %w", err)
+	// one segment, or two when the journal is synced in the middle of the transaction (tx.JournalSplit records in
+	// the first): every segment starts with its own header at the next sector boundary
+	segs := [][]uint32{recs}
+	if tx.JournalSplit > 0 && tx.JournalSplit < len(recs) {
+		segs = [][]uint32{recs[:tx.JournalSplit], recs[tx.JournalSplit:]}
 	}
-	off := int64(sectorSize)
-	for _, pg := range recs {
-		var b4 [4]byte
-		binary.BigEndian.PutUint32(b4[:], pg)
-		if err := db.WriteJournalAt(ctx, jf, b4[:], off, o); err != nil {
+	off := int64(0)
+	for _, seg := range segs {
+		hdrOff := off
+		hdr := make([]byte, sectorSize)
+		copy(hdr, "\xd9\xd5\x05\xf9\x20\xa1\x63\xd7")
+		binary.BigEndian.PutUint32(hdr[8:], 0) // nRec, rewritten at sync
+		binary.BigEndian.PutUint32(hdr[12:], p.Nonce)
+		binary.BigEndian.PutUint32(hdr[16:], uint32(len(prev.Pages)))
+		binary.BigEndian.PutUint32(hdr[20:], uint32(sectorSize))
+		binary.BigEndian.PutUint32(hdr[24:], uint32(ps))
+		if err := db.WriteJournalAt(ctx, jf, hdr, hdrOff, o); err != nil {
+			unlockAll()
+			return fmt.Errorf("journal header: %w", err)
+		}
+		off = hdrOff + int64(sectorSize)
+		for _, pg := range seg {
+			var b4 [4]byte
+			binary.BigEndian.PutUint32(b4[:], pg)
+			if err := db.WriteJournalAt(ctx, jf, b4[:], off, o); err != nil {
+				unlockAll()
+				return err
+			}
+			pre := prev.Pages[pg-1]
+			if err := db.WriteJournalAt(ctx, jf, pre, off+4, o); err != nil {
+				unlockAll()
+				return err
+			}
+			binary.BigEndian.PutUint32(b4[:], journalChecksum(pre, p.Nonce))
+			if err := db.WriteJournalAt(ctx, jf, b4[:], off+4+int64(ps), o); err != nil {
+				unlockAll()
+				return err
+			}
+			off += int64(8 + ps)
+		}
+		// sync: rewrite nRec
+		binary.BigEndian.PutUint32(hdr[8:], uint32(len(seg)))
+		if err := db.WriteJournalAt(ctx, jf, hdr[:12], hdrOff, o); err != nil {
 			unlockAll()
 			return err
 		}
-		pre := prev.Pages[pg-1]
-		if err := db.WriteJournalAt(ctx, jf, pre, off+4, o); err != nil {
-			unlockAll()
-			return err
-		}
-		binary.BigEndian.PutUint32(b4[:], journalChecksum(pre, p.Nonce))
-		if err := db.WriteJournalAt(ctx, jf, b4[:], off+4+int64(ps), o); err != nil {
-			unlockAll()
-			return err
-		}
-		off += int64(8 + ps)
+		_ = db.SyncJournal(ctx)
+		off = (off + int64(sectorSize) - 1) / int64(sectorSize) * int64(sectorSize)
 	}
-	// sync: rewrite nRec
-	binary.BigEndian.PutUint32(hdr[8:], uint32(len(recs)))
-	if err := db.WriteJournalAt(ctx, jf, hdr[:12], 0, o); err != nil {
-		unlockAll()
-		return err
-	}
-	_ = db.SyncJournal(ctx)
-	p.logf("journal recs=%v sector=%d", recs, sectorSize)
+	p.logf("journal recs=%v segments=%d sector=%d", recs, len(segs), sectorSize)
 
 	finalize := func() error {
 		switch jm {
